@@ -191,7 +191,7 @@ func init() {
 			}
 			return 500
 		},
-		Run:         fwRunner("C01", 40, 1500),
+		Run:         fwRunner("C01", 200, 1500),
 		MinDistinct: 25,
 		Floors:      map[string]int64{"data_forwarded": 200, "data_steps": 1000},
 	})
@@ -227,7 +227,7 @@ func init() {
 			if c.Batch < 2 {
 				c09Transports(c)
 			}
-			fwRunner("C09", 40, 1200)(c)
+			fwRunner("C09", 200, 1200)(c)
 		},
 		MinDistinct: 25,
 		Floors:      map[string]int64{"localhost_packets_from_nonlocal": 100, "localhost_packets_local": 200},
@@ -237,14 +237,14 @@ func init() {
 // ---- C08: state is reclaimed (forwarder part + FIB/RIB part)
 
 func c08Run(c *h.Ctx) {
-	n := c.Pick(12, 400)
+	n := c.Pick(60, 400)
 	for k := 0; k < n; k++ {
 		id := fmt.Sprintf("fw%d", k)
 		if c.Case(id) {
 			fwHistory(c, id, "C08")
 		}
 	}
-	nf := c.Pick(20, 800)
+	nf := c.Pick(80, 800)
 	for k := 0; k < nf; k++ {
 		id := fmt.Sprintf("fib%d", k)
 		if c.Case(id) {
